@@ -38,6 +38,11 @@ THEMES = {
           "rather than the first, hundreds of keys, a table that has been filled and emptied again, many close/reopen or export/load cycles. Short ordinary use must stay correct."),
     "H": ("build the defect into the handling of KEY TYPES AND ENCODINGS or ARGUMENT TYPES that the API accepts besides the usual ones: bytes versus str keys, non-ASCII "
           "text, empty keys, very long keys, `pathlib.Path` versus str paths, bytearray / memoryview buffers, numpy-like integers or bools, floats that are whole numbers."),
+    "X": ("assume the property is ALREADY being checked by a generic randomized tester: thousands of short random operation histories over small key universes "
+          "(a dozen keys), small and medium geometries, all public mutators and loaders picked at random, compared against a simple reference model after every "
+          "call. Build a defect that such a tester is UNLIKELY to hit by chance: it should need a conjunction of two or three specific conditions (a particular "
+          "value relation between parameters, a particular order of two rare operations, a particular size relation between two objects, a value that is only "
+          "reached after a specific build-up), each of which is plausible in real use."),
 }
 
 
@@ -107,7 +112,7 @@ def main():
         wt = os.path.join(base, pid)
         if not os.path.exists(wt):
             subprocess.run(["git", "-C", "/repo", "worktree", "add", "--detach", wt, "HEAD"], check=True, capture_output=True)
-        theme = "ABCDEFGH"[(i * 3 + rnd) % 8]
+        theme = "X" if rnd % 2 == 0 else "ABCDEFGH"[(i * 3 + rnd) % 8]
         with open(os.path.join(base, f"prompt_{pid}.txt"), "w") as f:
             f.write(prompt(p, wt, theme))
         print(pid, theme, wt)
